@@ -94,9 +94,20 @@ def _pyeq(a, b):
 def norm_value(t, v):
   """The value of a cell as a key.  A Date cell is a calendar day: formulas see datetime.date, so a stored
   number that is not midnight (5, True...) is the same day as the midnight before it."""
-  if t == 'Date' and isinstance(v, (int, float)) and v == v and abs(v) < 1e15:
+  if t == 'Date' and isinstance(v, (int, float)) and not isinstance(v, bool) and v == v and abs(v) < 1e15:
     import math
     return math.floor(v / 86400.0) * 86400
+  # A stored value that is not of the column's type (a float in a Ref column, left there by a doc action
+  # that bypassed conversion) is text to formulas: AltText(str(value)).
+  if v is not None and not isinstance(v, str) and not is_error(v) and hashable(v) and t:
+    try:
+      import usertypes
+      pure = t.split(':', 1)[0]
+      cls = getattr(usertypes, {'Ref': 'Reference', 'RefList': 'ReferenceList'}.get(pure, pure))
+      if not cls.is_right_type(v):
+        return str(v)
+    except Exception:       # pylint: disable=broad-except
+      pass
   return v
 
 
@@ -152,6 +163,11 @@ def oracle_table(e, info):
   if any(sc is None for (_c, sc, _t) in gb):
     return [('dangling-groupby', '%s: a group-by column has no source column' % sid)]
   types = [t for (_c, _sc, t) in gb]
+  for t in types:
+    if (t or '').startswith(('Ref:', 'RefList:')) and t.split(':', 1)[1] not in e.tables:
+      # not a well-formed column (AddColumn accepted a reference to a table that does not exist: C09's
+      # subject); reading or converting such cells raises, the table is outside this property's quantifier
+      return [('SKIP:group-by-column-refers-to-missing-table', '%s: %s' % (sid, t))]
   try:
     srows = raw_rows(e, src_id, [sc for (_c, sc, _t) in gb])
     mrows = raw_rows(e, sid, [c for (c, _sc, _t) in gb] + ['group'])
@@ -456,8 +472,11 @@ class Recorder(object):
       srows = []
       for rid in sorted(s.row_ids):
         srows.append((rid, [read_cell(s, c, rid) for c in gcols]))
+      cols = [t.get_column(c) for c in gcols] + [s.get_column(c) for c in gcols if s.has_column(c)]
       snap[sid] = {'src': src_id, 'gcols': gcols, 'kinds': kinds, 'rows': rows, 'srows': srows,
-                   'conv': [t.get_column(c) for c in gcols]}
+                   'conv': [t.get_column(c) for c in gcols],
+                   'dangling': any(isinstance(c, self.column.BaseReferenceColumn) and c._target_table is None
+                                   for c in cols)}
     return snap
 
 
@@ -638,6 +657,8 @@ def build_case(pre, post, lookup_mod, dirties=None):
   """Model input and expected output for one summary table and one bundle.  Raises SkipCase."""
   if pre['gcols'] != post['gcols'] or pre['kinds'] != post['kinds'] or pre['src'] != post['src']:
     raise SkipCase('group-by-changed-during-settle')
+  if post.get('dangling'):
+    raise SkipCase('group-by-column-refers-to-missing-table')
   intern = Interner()
   kinds = post['kinds']
   src = []
@@ -915,7 +936,12 @@ def collect(ctx):
   if getattr(ctx, '_c12', None) is not None:
     return ctx._c12
   import lookup as lookup_mod
-  rec = Recorder()
+  try:
+    rec = Recorder()
+  except core.TieBroken as ex:
+    ctx.broken('correspondence:C12 instrumentation', str(ex))
+    rec = None
+  tie_ok = [rec is not None]
   cases, issues = [], []
   try:
     runs = [(label, seed, nb, direct, None) for (label, seed, nb, direct) in plan(ctx)]
@@ -929,22 +955,33 @@ def collect(ctx):
           for a in (st['bundle'] if not st['failed'] and not st['undo'] else []):
             ctx.bump('action:' + str(a[0]))
           for kind, what in st['issues']:
+            if kind.startswith('SKIP:'):
+              ctx.bump('oracle-skipped:' + kind[5:])
+              continue
             issues.append((kind, what + (' [state after a failed, rolled back bundle]' if st['failed'] else ''),
                            {'history': st['history'], 'bundle': st['bundle'], 'kind': kind, 'seed': seed,
                             'stream': label}))
-          for sid, case, skip in cases_of_step(st, lookup_mod):
+          try:
+            step_cases = cases_of_step(st, lookup_mod) if tie_ok[0] else []
+          except core.TieBroken as ex:
+            ctx.broken('correspondence:C12 instrumentation', str(ex))
+            tie_ok[0] = False
+            step_cases = []
+          for sid, case, skip in step_cases:
             if skip:
               ctx.bump('skipped:' + skip)
               continue
             touched = st['post'][sid]['src'] in st['touched'] or sid in st['touched']
             cases.append(({'stream': label, 'seed': seed, 'table': sid, 'bundle': st['bundle'],
                            'nhistory': len(st['history']), 'touched': touched}, case))
-      except core.TieBroken:
-        raise
+      except core.TieBroken as ex:
+        ctx.broken('correspondence:C12 instrumentation', str(ex))
+        tie_ok[0] = False
       except Exception:        # pylint: disable=broad-except
         ctx.broken('harness:C12 history %s seed %s' % (label, seed), traceback.format_exc())
   finally:
-    rec.uninstall()
+    if rec is not None:
+      rec.uninstall()
   ctx.log('engine: %d cases from %d runs, %d oracle issues' % (len(cases), len(runs), len(issues)))
   ctx._c12 = (cases, issues)
   return ctx._c12
